@@ -4,6 +4,7 @@
 // racing with cancel. No synctest: real scheduler, real goroutines.
 //
 // Phase A: k blocking sends, then close alone resp. cancel alone, drain and compare (nothing may crash).
+// Phase A2: cancel while a producer goroutine is sending: every completed send is delivered (cancel_delivers_all).
 // Phase B, every round: k blocking sends (all complete before the race starts), then `cancel()` and `close(snd)`
 // from two goroutines released together (the closer staggered by 0..39 yields), then the receive side is
 // drained and compared with what was sent.
@@ -79,6 +80,37 @@ func TestUnboundRace(t *testing.T) {
 			bad = fmt.Sprintf("round %d cap=%d (%s alone): sent 1..%d, received %v", i, cp, map[bool]string{true: "close", false: "cancel"}[i%2 == 0], k, got)
 		}
 		cancel()
+	}
+	// phase A2 (another fifth): cancel racing with an ACTIVE producer — every send that completed (returned normally) must
+	// still be delivered before the receive side closes; a send that hits the send side after the pump closed it panics
+	// in the sender (recovered here: the sender's problem) and does not count
+	for i := seed; time.Since(start) < 2*budget/5 && bad == ""; i++ {
+		rounds++
+		cp := []int{1, 2, 4, 8}[i%4]
+		ctx, cancel := context.WithCancel(context.Background())
+		rcv, snd := pipe.New[int](ctx, cp)
+		completed := 0
+		done := make(chan struct{})
+		go func() {
+			defer close(done)
+			defer func() { _ = recover() }()
+			for v := 1; v <= 64; v++ {
+				snd <- v
+				completed = v
+			}
+		}()
+		for y := 0; y < i%97; y++ {
+			runtime.Gosched()
+		}
+		cancel()
+		<-done
+		got := []int{}
+		for v := range rcv {
+			got = append(got, v)
+		}
+		if fmt.Sprint(got) != fmt.Sprint(oneTo(completed)) {
+			bad = fmt.Sprintf("round %d cap=%d (cancel under an active producer): %d sends completed, received %v", i, cp, completed, got)
+		}
 	}
 	// phase B: close racing with cancel
 	if bad == "" {
